@@ -56,6 +56,7 @@ func runC42(w *World, r *Report) {
 	c42SharedBytecodeCache(w, r)
 	c42ScopeOnlyOnClones(w, r)
 	c42OperandAggregatesCopied(w, r)
+	c42CompileTimeInstances(w, r)
 
 	c42Removals(w, r, w.srcFuncs(sp), func(v ssa.Value) bool {
 		g, ok := v.(*ssa.Global)
